@@ -126,9 +126,59 @@ pub fn check_corpus(
     Ok(())
 }
 
+/// Pattern stream: rows (exhaustive or not) over catalogue / random data types, as a `match`, comatch
+/// argument patterns, or a `fn` / `let` / `do` binder, applied to every enumerated value of the type.
+/// Filtered by the implementation's own verdict: whatever is accepted must run without going wrong.
+pub fn check_patterns(ctx: &Ctx, tape: &[u8], stats: &mut Stats) -> Result<(), Fail> {
+    use crate::props::c04;
+    let (w, types) = c04::catalogue();
+    let (tname, ty, rows, form) = c04::random_case(&w, &types, tape);
+    if rows.is_empty() {
+        return Ok(());
+    }
+    let depth = 3;
+    let mut values = w.values(&ty, depth, 2000);
+    if values.len() > 40 {
+        let step = values.len() as f64 / 40.0;
+        values = (0..40).map(|i| values[(i as f64 * step) as usize].clone()).collect();
+    }
+    if values.is_empty() {
+        return Ok(());
+    }
+    let (text, _) = c04::run_program_text(ctx, &w, &ty, &rows, form, &values);
+    let path = thread_dir(ctx).join("pat.zy");
+    std::fs::write(&path, &text).expect("write case");
+    let session = CompilerSession::default();
+    let case = |extra: Value| json!({"type": tname, "form": format!("{form:?}"), "source": text[text.find("begin\n").unwrap_or(0)..].to_string(), "info": extra});
+    match drive::analyze_executable(&session, &path) {
+        | Analyzed::Executable(exe, _) => {
+            stats.eval();
+            let run = drive::run_executable(exe, b"", &[], 400_000);
+            if let RunEnd::Stuck { msg, file, line } = &run.end {
+                let short: String = msg.chars().take(48).collect();
+                return Err(Fail::new(
+                    format!("stuck[{short}]@{}", file.rsplit("/repo/").next().unwrap_or(file)),
+                    "progress, exit code, returned value, host I/O, or the division trap",
+                    format!("interpreter went wrong: `{msg}` at {file}:{line} after {} steps", run.steps),
+                )
+                .with(case(json!({"stdout_so_far": String::from_utf8_lossy(&run.stdout).chars().take(200).collect::<String>()}))));
+            }
+            stats.count(&format!("patterns:accepted-and-ran:{form:?}"));
+            stats.nontrivial(hash_of(&text));
+        }
+        | Analyzed::Panic(p) => {
+            return Err(Fail::new(format!("analysis-{}", p.signature()), "analysis to return", p.describe()).with(case(json!({}))));
+        }
+        | _ => stats.count(&format!("patterns:not-accepted(discarded):{form:?}")),
+    }
+    Ok(())
+}
+
 pub fn run(ctx: &Ctx) -> Report {
     let mut report = Report::new(
-        "streams, all filtered by the implementation's own accept verdict: (1) generated core programs; (3) every \
+        "streams, all filtered by the implementation's own accept verdict: (1) generated core programs; (2) pattern \
+         rows over catalogue/random data types as match, comatch argument patterns, or fn/let/do binders, applied \
+         to every enumerated value; (3) every \
          repository source that is an accepted executable and 1–2 token mutations of it that check still accepts \
          (analysed as an overlay at the original path); each accepted program runs on 6 stdin contents (empty, lines, \
          numbers incl. out-of-range, 70 kB line, invalid UTF-8, generated) × 2 argument vectors under a fuel bound; \
@@ -154,15 +204,20 @@ pub fn run(ctx: &Ctx) -> Report {
     let corpus_ref = &corpus;
     let r = run_tapes(ctx, "corpus", cases, 40, |tape, stats| check_corpus(corpus_ref, tape, stats));
     report.absorb(r);
+    let cases = ctx.tier.pick(1_500, 60_000);
+    let r = run_tapes(ctx, "patterns", cases, 120, |tape, stats| check_patterns(ctx, tape, stats));
+    report.absorb(r);
     report.extra.insert("corpus_roots".into(), json!(corpus.len()));
     report.assume("execution is observed for a fuel-bounded prefix (200k steps generated, 50k corpus)");
-    report.assume("stream (2) of the design (ill-typed mutants of generated programs that are nevertheless accepted) is exercised by C03's mutants, which are run whenever accepted");
     report
 }
 
 pub fn replay(ctx: &Ctx, doc: &Value) -> Result<(), Fail> {
     let tape = unhex(doc["tape_hex"].as_str().unwrap_or(""));
     let mut stats = Stats::new();
+    if doc["stage"] == "patterns" {
+        return check_patterns(ctx, &tape, &mut stats);
+    }
     if doc["stage"] == "corpus" {
         let corpus: Vec<_> = drive::corpus_texts(&ctx.repo_root);
         let base = doc["rendered"]["base"].as_str().unwrap_or("");
